@@ -172,8 +172,10 @@ class LaxBoundedSemaphore(_Semaphore):
                     cond.notify_all()
 
         def clear(self):
-            while self._value < self._initial_value:
-                _Semaphore.release(self)
+            with self._cond:
+                while self._value < self._initial_value:
+                    self._value += 1
+                    self._cond.notify()
     else:
 
         def __init__(self, value=1, verbose=None):
